@@ -1509,6 +1509,35 @@ func c15DeadlineAboveServerLimit(c *Ctx) {
 		return true
 	})
 	c.Check(nCtx == 1, R, "requestContext:one deadline", rc.Decl.Pos(), itoa(nCtx), "expected exactly one context.WithTimeout")
+	// the request context is the only deadline: an http.Client of this package has no Timeout of its own
+	// (it would fire before timeout+margin and turn the server's own "query timed out" answer into a
+	// connection error, which is failed over and reported as an outage)
+	nClient, badClient := 0, ""
+	for _, fi := range c.P.AllFuncs() {
+		if fi.Pkg != prom || fi.Decl.Body == nil || c.P.IsTestFile(fi.Decl.Pos()) {
+			continue
+		}
+		ast.Inspect(fi.Decl.Body, func(n ast.Node) bool {
+			switch x := n.(type) {
+			case *ast.CompositeLit:
+				if typeQName(info.TypeOf(x)) == "net/http.Client" {
+					nClient++
+					if v := litField(x, "Timeout"); v != nil {
+						badClient = c.P.Pos(v.Pos())
+					}
+				}
+			case *ast.AssignStmt:
+				for _, l := range x.Lhs {
+					if sel, ok := ast.Unparen(l).(*ast.SelectorExpr); ok && sel.Sel.Name == "Timeout" && typeQName(info.TypeOf(sel.X)) == "net/http.Client" {
+						badClient = c.P.Pos(l.Pos())
+					}
+				}
+			}
+			return true
+		})
+	}
+	c.Check(nClient >= 1 && badClient == "", R, "http.Client:no deadline besides the request context", rc.Decl.Pos(), itoa(nClient)+" client literal(s)",
+		"the HTTP client gets a Timeout of its own at "+badClient+": it ends a request before pint's deadline (configured timeout plus margin), so a query the server aborts at its time limit is seen as a connection timeout, failed over and reported as an outage")
 }
 
 // c15UpstreamIdentityAndOrder: three structural facts about the upstream list of
